@@ -75,8 +75,9 @@ func (i *interpreter) methodString(fr *frame, v iface, names ...string) (value, 
 		if p, ok := v.v.(*value); ok && p == nil {
 			return "<nil>", true
 		}
-		if i.opaqueInts && hasSymbolic(v.v, 0) {
-			// error text: do not format symbolic values
+		if (i.opaqueInts || isTimeType(v.t)) && hasSymbolic(v.v, 0) {
+			// error text: do not format symbolic values; the calendar rendering of a symbolic
+			// instant is never formatted (out of the solvers' reach and never the subject)
 			i.opaqueFmt++
 			return "<sym>", true
 		}
